@@ -51,7 +51,7 @@ def bounds(tier):
 
 def prepare(tier):
     hd = common.datasets("headers", ["3.9", "3.13"])
-    pg = common.datasets("progs", ["3.13", "2.7"], 1)
+    pg = common.datasets("progs", ["2.7", "3.6", "3.8", "3.10", "3.11", "3.12", "3.13"], 1)
     return {"headers": hd, "progs": pg, "tier": tier}
 
 
@@ -412,6 +412,20 @@ def build_ops(plan, workdir):
         if idx >= 0 and rec["id"] == "fn_defaults@module":
             plan["py27_payload"] = unhx(rec["pyc"])[rec["hdrlen"]:]
             break
+    # control-flow-rich files of neighbouring versions (loops, generators, async): the per-version decoding rules
+    # (jump scaling, backward jumps, inline caches) differ between them, so cross-version leakage has something to hit
+    rich = {}
+    quick = plan.get("tier") != "thorough"
+    for v in (("3.8", "3.11", "3.12", "3.13") if quick else ("2.7", "3.6", "3.8", "3.10", "3.11", "3.12", "3.13")):
+        for idx, rec in common.read_dataset(plan["progs"][v]):
+            if idx >= 0 and rec["id"] in (("cf_for_nested@function", "gen_async_for@module") if quick else ("cf_for_nested@function", "gen_async_for@module", "ex_try_loop@function")):
+                if v == "2.7" and rec["id"] == "gen_async_for@module":
+                    continue
+                p = os.path.join(workdir, "%s-%s.pyc" % (rec["id"].replace("@", "_"), v))
+                with open(p, "wb") as f:
+                    f.write(unhx(rec["pyc"]))
+                rich.setdefault(v, []).append(p)
+    plan["rich"] = rich
     for idx, rec in common.read_dataset(plan["headers"]["3.9"]):
         if idx >= 0 and rec["id"] == "real:CHECKED_HASH":
             p = os.path.join(workdir, "hash-3.9.pyc")
@@ -422,6 +436,7 @@ def build_ops(plan, workdir):
             with open(q, "wb") as f:
                 f.write(unhx(rec["pyc"])[:70])
             files["corrupt"] = q
+    quick = plan.get("tier") != "thorough"
     ops = []
     for modname in ("xdis", "xdis.opcodes.opcode_313", "xdis.std", "xdis.marsh"):
         ops.append(("import:" + modname, op_import(modname)))
@@ -438,6 +453,17 @@ def build_ops(plan, workdir):
     ops.append(("marsh.loads:plain", op_marsh_loads("plain", plan)))
     ops.append(("marsh.loads:py27code", op_marsh_loads("py27code", plan)))
     ops.append(("codeType2Portable", op_portable()))
+    for v in sorted(plan["rich"], key=common.vt):
+        for p in plan["rich"][v]:
+            ops.append(("disasm-rich:%s:%s" % (v, os.path.basename(p).split("-")[0]), op_disasm(p, "classic")))
+    # same version, different variant (CPython / PyPy tables share a version tuple): extended listings of both
+    for fam, pat in (("2.7pypy", "bytecode_2.7pypy/*.pyc"), ("pypy37", "bytecode_pypy37/*.pyc"), ("3.7", "bytecode_3.7/*.pyc"),
+                     ("pypy38", "bytecode_pypy38/*.pyc"), ("pypy36", "bytecode_pypy36/*.pyc"), ("3.6", "bytecode_3.6/*.pyc")):
+        if quick and fam in ("pypy36", "3.6"):
+            continue
+        fs = sorted((os.path.getsize(f), f) for f in glob.glob(os.path.join(test, pat)) if 200 <= os.path.getsize(f) <= 3000)
+        if fs:
+            ops.append(("disasm-variant:%s:extended" % fam, op_disasm(fs[-1][1], "extended")))
     for fam in ("2.7", "3.8", "3.12"):
         if fam in files:
             for fmt in ("classic", "bytes", "extended", "extended-bytes", "xasm", "header"):
@@ -451,15 +477,18 @@ _OPS = {}
 
 def execute(task):
     """runs in a freshly forked child: replay `history`, then `op` twice"""
-    history, opname = task
+    history, opname = task[0], task[1]
+    want_state = len(task) < 3 or task[2]
     t0 = time.time()
     out = {"history": history, "op": opname}
     try:
         for h in history:
             _OPS[h]()
         d1 = _OPS[opname]()
-        st = canon_state()
-        h1, per = state_hash(st)
+        if want_state:
+            h1, per = state_hash(canon_state())
+        else:
+            h1, per = "not-hashed", {}
         d2 = _OPS[opname]()
         out.update({"d1": d1, "d2": d2, "state": h1, "per_module": per, "sink_reads": sum(s.reads for s in _SINKS)})
     except BaseException as e:  # noqa
@@ -561,7 +590,7 @@ def run_case(case, ctx):
                 if r.get("sink_reads"):
                     ctx.count("sink_reads", r["sink_reads"])
                 edges.append((tuple(r["history"]), r["op"], r["state"]))
-                if r["state"] not in states:
+                if r["state"] != "not-hashed" and r["state"] not in states:
                     states[r["state"]] = r["history"] + [r["op"]]
                     per_module[r["state"]] = r["per_module"]
                     new.append(r["history"] + [r["op"]])
@@ -579,11 +608,11 @@ def run_case(case, ctx):
             fix = True
         # stateless sweep: ordered pairs (a, b) executed regardless of state merging, so that history dependence
         # through state the hash does not cover (stdlib caches, C-level state) is still exercised at depth 2
-        suspects = ["load:2.5dropbox", "load:corrupt", "load:3.12", "load:2.7pypy", "disasm:3.8:extended", "disasm:2.7:xasm",
-                    "make_std_api:2.7", "marsh.loads:py27code", "get_opcode:2.7pypy", "codeType2Portable", "marsh.dumps:tuple"]
+        suspects = [n for n in names if n.startswith(("disasm-rich:", "disasm-variant:"))] + ["load:2.5dropbox", "load:corrupt", "load:3.12", "load:2.7pypy", "disasm:3.8:extended", "disasm:2.7:xasm",
+                    "make_std_api:2.7", "marsh.loads:py27code", "get_opcode:2.7pypy"]
         firsts = names if tier == "thorough" else [n for n in suspects if n in names]
         done = set((tuple(e[0]), e[1]) for e in edges)
-        tasks = [([a], b) for a in firsts for b in names if ((a,), b) not in done]
+        tasks = [([a], b, False) for a in firsts for b in names if ((a,), b) not in done]
         swept = account(run_all(tasks))
         ctx.count("stateless_pairs", len(tasks))
         if swept:
